@@ -138,6 +138,11 @@ def setup():
     return 0
 
 
+def is_sched(ops):
+    """a scheduled history (thread lines + order line): trace indices are not line indices, keep it whole"""
+    return any(o.startswith(('t0 ', 't1 ', 'order ', 'stall ')) for o in ops)
+
+
 def write_replay(pid, tag, header, name, ops, note):
     os.makedirs(REPLAY, exist_ok=True)
     hid = hashlib.sha1(('\n'.join(ops) + note).encode()).hexdigest()[:10]
@@ -189,6 +194,15 @@ def main():
     t0 = time.time()
     spec = props.PROPS[pid]
     if a.replay:
+        # a replay is judged against /repo's current working tree too: rebuild the harness (and the model driver if the
+        # extraction is in place) before playing the file
+        okh, logh = build_harness()
+        if not okh:
+            print('INFRA: harness/library does not build:\n' + logh[-3000:])
+            sys.exit(2)
+        if os.path.exists(os.path.join(COQ, 'extraction', 'Extract.vo')):
+            with BuildLock():
+                build_driver()
         sys.exit(props.replay(pid, a.replay))
 
     violations = []      # (message, replay path)
@@ -274,7 +288,7 @@ def main():
         if suppressed:
             known_hits.append((suppressed, h))
             continue
-        path = write_replay(pid, 'viol', header, h, ops[:idx + 1], 'property %s fails on the implementation: %s (op index %d)' % (pid, msg, idx))
+        path = write_replay(pid, 'viol', header, h, ops if is_sched(ops) else ops[:idx + 1], 'property %s fails on the implementation: %s (op index %d)' % (pid, msg, idx))
         violations.append((msg, path, ''))
     seen_known = set()
     for fl, h in known_hits:
@@ -285,7 +299,7 @@ def main():
         for (h, idx, ml, il, ops, header) in res['divergences'][:5]:
             note = 'correspondence broken (model and implementation differ) for %s at op %d\nmodel: %s\nimpl:  %s\ntheorems at stake: %s' % (
                 pid, idx, ml, il, ', '.join(names))
-            path = write_replay(pid, 'corr', header, h, ops[:idx + 1] if idx >= 0 else ops, note)
+            path = write_replay(pid, 'corr', header, h, ops[:idx + 1] if idx >= 0 and not is_sched(ops) else ops, note)
             violations.append(('model/implementation divergence at %s op %d' % (h, idx), path, ' no-failing-input-found'))
         if proof_problems:
             os.makedirs(REPLAY, exist_ok=True)
